@@ -120,6 +120,11 @@ pub fn run(ctx: &Ctx) -> ! {
         x.only_datasets = Some(vec!["diamond", "counts0123"]);
         x
     }));
+    cfg.extra.push(("one-edge structures + two tag deviations", {
+        let mut x = corpus::one_edge_two_tags_cfg(&uni);
+        x.only_datasets = Some(vec!["diamond", "counts0123"]);
+        x
+    }));
     cfg.stream_share = 1.0;
     let stats = corpus::drive(
         ctx,
